@@ -146,4 +146,4 @@ def replay(j):
     print("program:\n" + j["text"])
     print("now:", bad or "all call mixes agree")
     print("recorded:", j.get("what"))
-    return bad is not None
+    return bad is None          # True = the contract holds now
